@@ -176,7 +176,7 @@ def validate_trace(work, tag, module, cfg_name, trace_path, timeout=1800, extra_
     subst = {"TraceFile": '"%s"' % trace_path}
     subst.update(extra_subst or {})
     cfg = read_cfg(cfg_name, subst)
-    out = tlc(work, "tv-" + tag, module, cfg, timeout=timeout, heap="4g", workers=1)
+    out = tlc(work, "tv-" + tag, module, cfg, timeout=timeout, heap="2g", workers=1)
     res = {"accepted": False, "viol": set(), "nt": set(), "drift": set(), "known": set(), "n": 0, "out": out}
     for line in out.splitlines():
         m = REP.match(line.strip())
